@@ -636,6 +636,9 @@ class GroupBy:
                 ),
             )
 
+        # validated as passed in: converting timestamps below drops a Series' index
+        to_check = list(value_list)
+
         type_list = [None] * len(value_list)
         for i, val in enumerate(value_list):
             if series_is_timestamp(val):
@@ -643,7 +646,6 @@ class GroupBy:
             else:
                 type_list[i] = val.dtype if hasattr(val, "dtype") else val.type
 
-        to_check = value_list
         if mask is not None and pd.api.types.is_bool_dtype(mask):
             to_check = [*to_check, mask]
 
